@@ -80,6 +80,34 @@ def analyse(mod, run, label, names=None):
             run.check(not missing, "B2-dispatch-exhaustive", {"fn": fn.name, "at": loc(t), "cases": sorted(cases)},
                       Finding("B2-dispatch-not-exhaustive", fn.name, "switch", ",".join(missing),
                               "switch on the container type at %s has no case for %s" % (loc(t), ", ".join(missing)), loc=loc(t)))
+    # ---- B2b: a function that modifies the bitmap and tests its container type with == / != must account for every enumerator ----
+    en_all = None
+    for nm, e in mod.enums.items():
+        if any(k.startswith(("VARINT_BITMAP_", "CTL_")) for k in e): en_all = e if en_all is None or nm == ENUM else en_all
+    for fn in sorted(mod.defined(), key=lambda f: f.name):
+        wparams = {r[1] for r in summ[fn.name].mod if r[0] == "arg"}
+        tested = {}; first = None
+        for i in fn.insts():
+            if i.op != "icmp" or i["pred"] not in ("eq", "ne") or i.ops[1]["k"] != "int": continue
+            en = fn.enum_of_value(i.ops[0])
+            if not en or not any(n.startswith(("VARINT_BITMAP_", "CTL_")) for n in en): continue
+            o = i.ops[0]
+            while o["k"] == "inst" and fn.imap[o["v"]].op in ("zext", "sext", "trunc"): o = fn.imap[o["v"]].ops[0]
+            root = w.fi(fn).prepare().ptr(fn.imap[o["v"]].ops[0])[0]
+            if root[0] != "arg" or root[1] not in wparams: continue      # only objects this function modifies
+            tested.setdefault(root[1], set()).add(int(i.ops[1]["v"])); first = first or i
+        for k, vals in tested.items():
+            # a switch over the same object's type in this function covers the remaining enumerators
+            sw_cases = set()
+            for b in fn.blocks:
+                t = b.term
+                if t.op == "switch" and fn.enum_of_value(t.ops[0]): sw_cases |= {int(c["v"]) for c in t["cases"]}
+            missing = sorted(n for n, v in en_all.items() if int(v) not in vals | sw_cases) if en_all else []
+            nsw += 1
+            run.check(not missing, "B2-dispatch-exhaustive", {"fn": fn.name, "if_chain_on_type": sorted(vals)},
+                      Finding("B2-dispatch-not-exhaustive", fn.name, "if-chain", ",".join(missing),
+                              "%s modifies the bitmap and tests its container type only against %s (at %s): %s is not handled, so the container and the bookkeeping (cardinality) can disagree for that type" % (
+                                  fn.name, sorted(vals), loc(first), ", ".join(missing)), loc=loc(first)))
     # ---- B3 ----
     nfree = 0
     for fn in sorted(mod.defined(), key=lambda f: f.name):
